@@ -349,9 +349,15 @@ def _unroll_display_comp(node):
     """A comprehension over a display written out right there is the display
     of its instances: {k: f(v) for k, v in {'a': x, 'b': y}.items()} is
     {'a': f(x), 'b': f(y)}; [f(x) for x in (a, b)] is [f(a), f(b)]."""
-    if not isinstance(node, (ast.DictComp, ast.ListComp)) or len(
+    if not isinstance(node, (ast.DictComp, ast.ListComp,
+                             ast.GeneratorExp)) or len(
             node.generators) != 1:
         return node
+    if isinstance(node, ast.GeneratorExp) and not (
+            isinstance(node.generators[0].iter, (ast.Tuple, ast.List))
+            and all(isinstance(e, ast.Constant)
+                    for e in node.generators[0].iter.elts)):
+        return node     # (only over a table of constants)
     g = node.generators[0]
     if g.ifs or g.is_async:
         return node
@@ -370,8 +376,10 @@ def _unroll_display_comp(node):
             rows = list(d.keys)
         else:
             rows = list(d.values)
-    elif isinstance(it, (ast.Tuple, ast.List)) and 0 < len(it.elts) <= 6 \
-            and not any(isinstance(e, ast.Starred) for e in it.elts):
+    elif isinstance(it, (ast.Tuple, ast.List)) and not any(
+            isinstance(e, ast.Starred) for e in it.elts) and (
+                0 < len(it.elts) <= 6 or (0 < len(it.elts) <= 16 and all(
+                    isinstance(e, ast.Constant) for e in it.elts))):
         rows = list(it.elts)
     if rows is None:
         return node
@@ -438,8 +446,14 @@ class _Subst(ast.NodeTransformer):
         f = _fold_lookup(node)
         if f is not None:
             return f
-        # (a, b, c, d)[:3] / [1:] of a display written out right there
+        # (a, b, c, d)[:3] / [1:] / [0] of a display written out right there
         v, k = node.value, node.slice
+        if isinstance(node.ctx, ast.Load) and isinstance(
+                v, (ast.Tuple, ast.List)) and isinstance(
+                    k, ast.Constant) and type(k.value) is int and not any(
+                        isinstance(e, ast.Starred) for e in v.elts) and \
+                -len(v.elts) <= k.value < len(v.elts):
+            return v.elts[k.value]
         if isinstance(node.ctx, ast.Load) and isinstance(
                 v, (ast.Tuple, ast.List)) and isinstance(k, ast.Slice) and \
                 k.step is None and not any(isinstance(e, ast.Starred)
@@ -847,6 +861,14 @@ class Enumerator:
                                                    b.id)
                 except Exception:
                     sent = False
+                if sent and isinstance(a, ast.Name) and not a.id.startswith(
+                        'SYM_') and a.id in self._stack[-1].params and \
+                        self._sentinel_private(self._stack[-1].module, b.id,
+                                               strict=True):
+                    # what a caller hands in is not an object that never
+                    # leaves this module (it is neither returned nor passed
+                    # on anywhere)
+                    return False
                 if sent and not isinstance(a, ast.Name) or (
                         sent and isinstance(a, ast.Name)
                         and a.id.startswith('SYM_')):
@@ -1129,13 +1151,13 @@ class Enumerator:
             return f.cls is not None and q in self.prog.mro(f.cls.qual)
         return self.prog.resolve(self._stack[-1].module, e.value) == q
 
-    def _sentinel_private(self, module, name):
+    def _sentinel_private(self, module, name, strict=False):
         """The sentinel never gets into a container or an attribute: the
         name only occurs as an operand of `is` / `is not`, as a call argument
         (a default handed to .get / getattr / next) or as the value of a
         plain local assignment."""
         cache = self.__dict__.setdefault('_sent_private', {})
-        k = (module.name, name)
+        k = (module.name, name, strict)
         if k in cache:
             return cache[k]
         from .util import parent_map
@@ -1148,12 +1170,12 @@ class Enumerator:
             par = pm.get(n)
             if isinstance(par, ast.Compare):
                 continue
-            if isinstance(par, ast.Call) and n in par.args:
+            if isinstance(par, ast.Call) and n in par.args and not strict:
                 continue
             if isinstance(par, ast.Assign) and par.value is n and all(
                     isinstance(t, ast.Name) for t in par.targets):
                 continue
-            if isinstance(par, ast.Return):
+            if isinstance(par, ast.Return) and not strict:
                 continue
             ok = False
         # ... and nothing outside the module imports it
@@ -3244,19 +3266,41 @@ class Enumerator:
             return
         if self.unroll and isinstance(it, ast.Name) and it.id.startswith(
                 'SYM_m') and isinstance(self.defs.get(it.id), (
-                    ast.List, ast.Tuple)) and 0 < len(
-                        self.defs[it.id].elts) <= 4 and not any(
+                    ast.List, ast.Tuple)) and not any(
                             isinstance(e, ast.Starred)
-                            for e in self.defs[it.id].elts) and \
-                self._coll_truth(it, st) is True and not any(
-                    e.kind == 'call' and isinstance(
+                            for e in self.defs[it.id].elts):
+            # a literal display and what was appended to it on this path
+            # (nothing else was done to it): walk its elements
+            elts = list(self.defs[it.id].elts)
+            exact = True
+            for e in st.events:
+                if e.kind in ('call', 'maycall') and isinstance(
                         e.node.func, ast.Attribute) and isinstance(
-                            e.node.func.value, ast.Name)
-                    and e.node.func.value.id == it.id for e in st.events):
-            # a literal display nobody touched since: walk its elements
-            yield from self._for_unrolled(node, self.defs[it.id].elts, st,
-                                          handlers)
-            return
+                            e.node.func.value, ast.Name) and \
+                        e.node.func.value.id == it.id:
+                    if e.kind == 'call' and e.node.func.attr == 'append' \
+                            and len(e.node.args) == 1 and \
+                            not e.node.keywords:
+                        elts.append(e.node.args[0])
+                    elif e.node.func.attr not in ('copy', 'index', 'count'):
+                        exact = False
+                elif e.kind in ('store', 'aug', 'del') and isinstance(
+                        e.node, ast.Subscript) and isinstance(
+                            e.node.value, ast.Name) and \
+                        e.node.value.id == it.id:
+                    exact = False
+                elif e.kind in ('call', 'maycall') and any(
+                        isinstance(a, ast.Name) and a.id == it.id
+                        for a in list(e.node.args) + [
+                            k.value for k in e.node.keywords]) and not (
+                        isinstance(e.node.func, ast.Name)
+                        and e.node.func.id in self.PURE_BUILTINS):
+                    exact = False       # handed to something else
+            if exact and 0 < len(elts) <= 4 and (
+                    len(elts) > len(self.defs[it.id].elts)
+                    or self._coll_truth(it, st) is True):
+                yield from self._for_unrolled(node, elts, st, handlers)
+                return
         if has_call(it):
             for c in reversed([n for n in ast.walk(it)
                                if isinstance(n, ast.Call)]):
